@@ -37,6 +37,12 @@ type PropSpec struct {
 	Replay      []ReplayRule      `json:"replay"`
 	Explanation string            `json:"explanation"`
 	MinObligations int            `json:"min_obligations"`
+	// Scope: regular expressions over the short obligation name; when non-empty only matching
+	// obligations belong to this property (the others belong to other properties' checks)
+	Scope        []string `json:"scope"`
+	ScopeExclude []string `json:"scope_exclude"`
+	PinnedFile   string   `json:"pinned_file"`   // JSON map obligation -> clause text (in spec/)
+	PinnedLabels []string `json:"pinned_labels"` // labels (ensures:<label>) of pinned_file that this property pins
 }
 
 type Finding struct {
@@ -150,6 +156,79 @@ func (s *Session) RunCheck(ps *PropSpec, opts CheckOpts) int {
 		results = append(results, s.Generate(key)...)
 	}
 	genTime := time.Since(start).Seconds()
+	generated := map[string]int{}
+	outOfScope := 0
+	if len(ps.Scope) > 0 {
+		var res []*regexp.Regexp
+		for _, p := range ps.Scope {
+			re, err := regexp.Compile(p)
+			if err != nil {
+				fmt.Println("error: scope:", err)
+				return 2
+			}
+			res = append(res, re)
+		}
+		var excl []*regexp.Regexp
+		for _, p := range ps.ScopeExclude {
+			re, err := regexp.Compile(p)
+			if err != nil {
+				fmt.Println("error: scope_exclude:", err)
+				return 2
+			}
+			excl = append(excl, re)
+		}
+		inScope := func(n string) bool {
+			for _, re := range excl {
+				if re.MatchString(n) {
+					return false
+				}
+			}
+			for _, re := range res {
+				if re.MatchString(n) {
+					return true
+				}
+			}
+			return false
+		}
+		for _, r := range results {
+			generated[r.Key] = len(r.Obligations)
+			var keep []*Obligation
+			for _, o := range r.Obligations {
+				n := shortObl(o.FullName())
+				if o.Cover {
+					n = shortObl(o.Func) + "#ensures:" + strings.TrimPrefix(o.Name, "cover:")
+				}
+				if inScope(n) {
+					keep = append(keep, o)
+				} else if !o.Cover {
+					outOfScope++
+				}
+			}
+			r.Obligations = keep
+		}
+	}
+	if ps.PinnedFile != "" {
+		data, err := os.ReadFile(filepath.Join(opts.VerifDir, "spec", ps.PinnedFile))
+		if err != nil {
+			fmt.Println("error:", err)
+			return 2
+		}
+		all := map[string]string{}
+		if err := json.Unmarshal(data, &all); err != nil {
+			fmt.Println("error:", ps.PinnedFile, err)
+			return 2
+		}
+		if ps.Pinned == nil {
+			ps.Pinned = map[string]string{}
+		}
+		for name, text := range all {
+			for _, l := range ps.PinnedLabels {
+				if strings.HasSuffix(name, "#ensures:"+l) || (l == "contract" && strings.HasSuffix(name, "#contract")) || (l == "macro" && strings.Contains(name, "#macro:")) {
+					ps.Pinned[name] = text
+				}
+			}
+		}
+	}
 	s.DischargeAll(results, ps.ID)
 	s.RetryWithFindings(results, ps.ID)
 	sums := Summarize(results)
@@ -186,12 +265,29 @@ func (s *Session) RunCheck(ps *PropSpec, opts CheckOpts) int {
 		for _, u := range r.Unsupported {
 			viols = append(viols, viol{Name: shortObl(r.Key) + "#unsupported", Reason: "function left the verified subset: " + u})
 		}
-		if r.Error == "" && len(r.Unsupported) == 0 && r.Returns == 0 && len(r.Obligations) == 0 {
+		if r.Error == "" && len(r.Unsupported) == 0 && r.Returns == 0 && len(r.Obligations) == 0 && generated[r.Key] == 0 {
 			engineProblems = append(engineProblems, "no obligations generated for "+r.Key)
 		}
 	}
 	// 3. pinned clauses and required obligations
 	for name, text := range ps.Pinned {
+		if strings.HasSuffix(name, "#contract") {
+			key := strings.TrimSuffix(name, "#contract")
+			ct := ex.Contracts[ModulePath+"/"+key]
+			if ct == nil {
+				viols = append(viols, viol{Name: name, Reason: "contract missing (deleted)"})
+			} else if ct.SpecText() != normClause(text) {
+				viols = append(viols, viol{Name: name, Reason: fmt.Sprintf("contract differs from the pinned property-level statement: have %q want %q", ct.SpecText(), normClause(text))})
+			}
+			continue
+		}
+		if i := strings.Index(name, "#macro:"); i >= 0 {
+			got := MacroRaw[ModulePath+"/"+name[:i]][name[i+7:]]
+			if got != normClause(text) {
+				viols = append(viols, viol{Name: name, Reason: fmt.Sprintf("macro differs from the pinned property-level statement: have %q want %q", got, normClause(text))})
+			}
+			continue
+		}
 		sm, ok := byName[name]
 		if !ok {
 			viols = append(viols, viol{Name: name, Reason: "required obligation missing (contract clause deleted or function not analysed)"})
@@ -317,6 +413,9 @@ func (s *Session) RunCheck(ps *PropSpec, opts CheckOpts) int {
 		"explanation":         ps.Explanation,
 		"contract_files":      s.ContractFiles,
 		"per_obligation_timeout_s": s.TimeoutS,
+		"scope":               ps.Scope,
+		"out_of_scope_query_instances": outOfScope,
+		"pinned_clauses":      len(ps.Pinned),
 	}
 	nReach, nMaybe := 0, 0
 	var vacuous []string
